@@ -90,12 +90,15 @@ Definition calc_region_offset (off size addr : Z) : Z :=
   wrap64 (wrap64 (wrap32 (off + size) - BASE) + addr).
 
 (** Returns the value and whether an error was returned with it
-    ([math.MaxUint64, err] in the last case). *)
-Definition calc_image_offset (l : layout) (addr : Z) : outcome Z :=
+    ([math.MaxUint64, err] in the last case). [imglen] = len(image). *)
+Definition calc_image_offset (l : layout) (imglen addr : Z) : outcome Z :=
   match l with
   | LFullFlash off size => Ok (calc_region_offset off size addr)
   | LCoreboot off size => Ok (calc_region_offset off size addr)
-  | LBiosOnly => Ok (wrap64 (BASE - addr))          (* [consts.BasePhysAddr - addr] *)
+  | LBiosOnly => Ok (wrap64 (wrap64 (imglen - BASE) + addr))
+                 (* [uint64(len(image)) - consts.BasePhysAddr + addr] (fix 98fb605): the whole
+                    image is the region, i.e. [calc_region_offset 0 imglen addr] for images
+                    below 4 GiB *)
   | LNone => Err 1
   end.
 
